@@ -90,3 +90,42 @@ def ev_to_case(e):
 def ev_from_case(c):
     data = c['data']
     return mk(c['ts'], c['eventid'], c['qual'], data, c['tid'])
+
+
+REAL_FAULT_IDS = set(range(0x1320008, 0x1320018, 4))     # hard-coded in the page-fault decoder: never re-labelled
+
+
+def relabel(events, rng):
+    """The same capture under a supplied code table that lists names under SEVERAL ids (as the bundled table itself does
+    for some names): every id that occurs gets one to three new ids (sometimes next to the original), listed in random
+    order somewhere in the table, and every record picks one of the ids of its name - the END and the continuation
+    records of a START keep the START's choice (they pair by id).  Returns (events, table); what is decoded must read
+    the same as under the bundled ids."""
+    bundled = bundled_codes()
+    used = sorted({e.eventid for e in events if e.eventid not in REAL_FAULT_IDS})
+    free = [i for i in range(0x60000000, 0x60000000 + 4 * (len(used) + 1) * 8, 4) if i not in bundled]
+    rng.shuffle(free)
+    fan = {}
+    for old in used:
+        fan[old] = [free.pop() for _ in range(rng.choice((1, 2, 3)))] + ([old] if rng.random() < 0.5 else [])
+    pairs = [(new, bundled[old]) for old, news in fan.items() if old in bundled for new in news]
+    rng.shuffle(pairs)
+    rest = [(k, v) for k, v in bundled.items() if k not in fan]
+    cut = rng.randrange(len(rest) + 1)
+    table = dict(rest[:cut] + pairs + rest[cut:])
+    out, open_choice = [], {}
+    for e in events:
+        if e.eventid not in fan:
+            out.append(e)
+            continue
+        key = (e.tid, e.eventid)
+        if e.func_qualifier in (0, 2) and key in open_choice:
+            chosen = open_choice[key]
+            if e.func_qualifier == 2:
+                del open_choice[key]
+        else:
+            chosen = rng.choice(fan[e.eventid])
+            if e.func_qualifier == 1:
+                open_choice[key] = chosen
+        out.append(mk(e.timestamp, chosen, e.func_qualifier, e.data, e.tid))
+    return out, table
